@@ -325,4 +325,42 @@ theorem C04_bridge_nonexternalizable (k : PonyVerif.Model.PreTrans.Kind) :
     PonyVerif.Model.PreTrans.nonExternalizable k = C04Src.nonexternalizable.contains (kindClass k) := by
   cases k <;> decide
 
+/-! ### parameters of queries built over queries: the key `(filter_num, src, code_key)` never collides between levels -/
+
+/-- the filter numbers of a chain of levels: level 0 has number `n`, every further level (a query over the previous one, or a
+    `.filter` / `.where` / `.order_by` refinement) takes the previous number + 1 — `prev_query._filter_num + 1`,
+    `query._filter_num + 1` -/
+def levelNums (n : Nat) : Nat → List Nat
+  | 0 => [n]
+  | k + 1 => n :: levelNums (n + 1) k
+
+theorem levelNums_lb (n k : Nat) : ∀ x ∈ levelNums n k, n ≤ x := by
+  induction k generalizing n with
+  | zero => simp [levelNums]
+  | succ k ih =>
+    intro x hx
+    simp only [levelNums, List.mem_cons] at hx
+    rcases hx with rfl | hx
+    · exact Nat.le_refl _
+    · exact Nat.le_of_succ_le (ih (n + 1) x hx)
+
+/-- for every start and every number of levels the numbers are pairwise different: two levels that share ONE code object (a helper
+    applied repeatedly, a loop, recursion) and the same source text still own different parameter keys, so every level's
+    outer-scope value reaches the database -/
+theorem C04_filter_nums_distinct (n k : Nat) : (levelNums n k).Nodup := by
+  induction k generalizing n with
+  | zero => simp [levelNums]
+  | succ k ih =>
+    simp only [levelNums, List.nodup_cons]
+    refine ⟨?_, ih (n + 1)⟩
+    intro h
+    have := levelNums_lb (n + 1) k n h
+    omega
+
+example : levelNums 0 3 = [0, 1, 2, 3] := by decide
+
+/-- the source numbers levels exactly so; a change of either expression breaks this (fail closed) -/
+theorem C04_bridge_filter_num :
+    C04Src.nestedFilterNum = "prev_query._filter_num + 1" ∧ C04Src.refinedFilterNum = "query._filter_num + 1" := by decide
+
 end PonyVerif.Props.C04
